@@ -158,6 +158,14 @@ class D(Driver):
             kind = rng.choice(("translate", "translate", "rotate", "uniform", "nonuniform", "mirror", "rotscale", "general"))
             Tm = rand_T(rng, kind)
             cmds = rand_shape_cmds(rng)
+            if rng.random() < 0.1:
+                # the same shapes far from the origin (1e6 .. 1e10 units): absolute tolerances must stay absolute
+                big = 10.0 ** rng.uniform(6, 10) * rng.choice((-1, 1))
+                cmds, _ = transform_cmds(cmds, (1.0, 0.0, 0.0, 1.0, big, big * rng.uniform(0.3, 1.0)), random.Random(rng.random()))
+                bump(res["features"], "far_from_origin")
+                if kind not in ("translate", "rotate"):
+                    kind = rng.choice(("translate", "rotate"))
+                    Tm = rand_T(rng, kind)
             d1 = gp.render(cmds)
             s1 = P(d=d1)
             c2, ncoord = transform_cmds(cmds, Tm, rng)
